@@ -185,7 +185,7 @@ func runC14(c *eng.Ctx) {
 		c.Check(eng.Unwrap(arg) == ssa.Value(f.Params[1]), "bit-is-the-argument", wb.Instr, f, "the bit written is the slot's mark", "writes "+p.Desc(arg))
 		cnt := c.Some(f, eng.StoreField("pkg/encoding.TSDEncoder.count"), "e.count++")
 		for i, st := range cnt {
-			c.Check(st.Instr.Block() == wb.Instr.Block(), fmt.Sprintf("count-follows-the-bit[%d]", i), st.Instr, f, "count advances exactly when a bit is written", "")
+			c.Check(eng.DominatedBy(f, st.Instr, []eng.Site{wb}, nil), fmt.Sprintf("count-follows-the-bit[%d]", i), st.Instr, f, "count advances only after a bit was written", "")
 		}
 		owner(c, "store to TSDEncoder.startTime", eng.StoreField("pkg/encoding.TSDEncoder.startTime"),
 			[]string{"pkg/encoding.NewTSDEncoder", "pkg/encoding.TSDEncoder.RestWithStartTime"}, 2)
@@ -307,13 +307,39 @@ func emptyBlockAccepted(c *eng.Ctx) {
 	gets := c.Some(f, eng.CallTo("pkg/encoding.FixedOffsetDecoder.Get"), "d.Get(index), d.Get(index+1)")
 	c.Check(len(gets) >= 2, "both-offsets-read", nil, f, "start and end offset are read from the table", fmt.Sprintf("%d reads", len(gets)))
 	n := 0
-	for i, r := range eng.SuccessReturns(f) {
+	// the function that slices: GetBlock itself or a helper it hands the offsets to
+	hosts := []*ssa.Function{f}
+	seenHost := map[*ssa.Function]bool{f: true}
+	for _, b := range eng.BlocksT(f) {
+		for _, in := range b.Instrs {
+			if g := eng.TransparentCallee(in); g != nil && !seenHost[g] {
+				seenHost[g] = true
+				hosts = append(hosts, g)
+			}
+		}
+	}
+	type sret struct {
+		g *ssa.Function
+		r ssa.Instruction
+	}
+	var rets []sret
+	for _, g := range hosts {
+		for _, r := range eng.SuccessReturns(g) {
+			rets = append(rets, sret{g, r})
+		}
+	}
+	for i, sr := range rets {
+		r := sr.r
 		v := eng.RetVal(r, 0)
 		sl, ok := eng.Unwrap(v).(*ssa.Slice)
 		if !ok || sl.Low == nil || sl.High == nil {
 			continue
 		}
 		n++
+		facts := facts
+		if sr.g != f {
+			facts = p.MustFacts(sr.g)
+		}
 		fs := facts.At(r)
 		strict := facts.Find(fs, "lt", func(_ string, x ssa.Value) bool { return eng.SameValue(x, sl.Low) }, func(_ string, y ssa.Value) bool { return eng.SameValue(y, sl.High) })
 		c.Check(len(strict) == 0, fmt.Sprintf("empty-range-is-not-corruption[%d]", i), r, f,
